@@ -47,6 +47,14 @@ def has_both(node):
     return (node[1] is not None and node[2] is not None) or has_both(node[1]) or has_both(node[2])
 
 
+def has_alt_chain(node):
+    """is some alternative followed by a further alternative (so that nested and flat writing differ)?"""
+    if node is None:
+        return False
+    i, ref, alt = node
+    return (alt is not None and alt[2] is not None) or has_alt_chain(ref) or has_alt_chain(alt)
+
+
 def size(node):
     return 0 if node is None else 1 + size(node[1]) + size(node[2])
 
@@ -76,7 +84,10 @@ def cases(tier, inst):
     for n in range(1, nmax + 1):
         for sh in binary_shapes(n):
             node = label(sh, [0])
-            for order in (("ra", "ar") if has_both(node) else ("ra",)):
+            orders = ("ra", "ar") if has_both(node) else ("ra",)
+            if has_alt_chain(node):
+                orders += tuple(o + "F" for o in orders)
+            for order in orders:
                 for base in ("one", "join"):
                     for form in ("an", "infer"):
                         for caching in (True, False):
@@ -94,7 +105,7 @@ def cases(tier, inst):
                     yield ("zjoin", node, kinds, caching)
 
 
-def build_tree(node, x, y, views, order, inst):
+def build_tree(node, x, y, views, order, inst, no_alts=False):
     i, ref, alt = node
     Add(views, W.Made(a=x, b=inst.v(i + 1), c=y) if y is not None else W.Made(a=x, b=inst.v(i + 1)))
 
@@ -106,17 +117,30 @@ def build_tree(node, x, y, views, order, inst):
             c.append(y.p >= inst.v(1))
         return c
 
+    flat = order.endswith("F")
+
     def do_ref():
         if ref is not None:
             with refinement(*cond(ref[0])):
                 build_tree(ref, x, y, views, order, inst)
 
     def do_alt():
-        if alt is not None:
+        if alt is None or no_alts:
+            return
+        if not flat:
+            # nested style: the next alternative is written inside the block of the previous one
             with alternative(*cond(alt[0])):
                 build_tree(alt, x, y, views, order, inst)
+        else:
+            # flat style (as in the repository's tests): the whole chain of alternatives of this node is written as
+            # sibling blocks, one after the other, in the block of the node
+            a = alt
+            while a is not None:
+                with alternative(*cond(a[0])):
+                    build_tree(a, x, y, views, order, inst, no_alts=True)
+                a = a[2]
 
-    if order == "ra":
+    if order.startswith("ra"):
         do_ref()
         do_alt()
     else:
@@ -338,15 +362,23 @@ def shape_class(node):
     return "+".join(f) or "simple"
 
 
-def show(node, inst, depth=1, ycond=""):
+def show(node, inst, depth=1, ycond="", order="ra", no_alts=False):
     i, ref, alt = node
     pad = "    " * depth
     s = f"{pad}Add(views, Made(a=x, b={inst.v(i + 1)}))\n"
+    r = a = ""
     if ref is not None:
-        s += f"{pad}with refinement(x.t[{ref[0]}] == {inst.v(1)}{ycond}):\n" + show(ref, inst, depth + 1, ycond)
-    if alt is not None:
-        s += f"{pad}with alternative(x.t[{alt[0]}] == {inst.v(1)}{ycond}):\n" + show(alt, inst, depth + 1, ycond)
-    return s
+        r = f"{pad}with refinement(x.t[{ref[0]}] == {inst.v(1)}{ycond}):\n" + show(ref, inst, depth + 1, ycond, order)
+    if alt is not None and not no_alts:
+        if not order.endswith("F"):
+            a = f"{pad}with alternative(x.t[{alt[0]}] == {inst.v(1)}{ycond}):\n" + show(alt, inst, depth + 1, ycond, order)
+        else:
+            n = alt
+            while n is not None:
+                a += (f"{pad}with alternative(x.t[{n[0]}] == {inst.v(1)}{ycond}):\n"
+                      + show(n, inst, depth + 1, ycond, order, no_alts=True))
+                n = n[2]
+    return s + (r + a if order.startswith("ra") else a + r)
 
 
 def describe(case, inst):
@@ -365,6 +397,6 @@ def describe(case, inst):
             f"with symbolic_mode(): x = let(Item, xs); " + ("y = let(Item, ys); " if base == "join" else "")
             + f"views = let(View); q = {form}(entity(views, x.t[0] == {inst.v(1)}"
             + (f", y.p >= {inst.v(1)}" if base == "join" else "") + "))\n"
-            "with rule_mode(q):" + ("   # blocks written alternative-first where a node has both" if order == "ar" else "") + "\n"
-            + show(node, inst, 1, f", y.p >= {inst.v(1)}" if base == "join" else "") + "rows1 = list(q.evaluate()); rows2 = list(q.evaluate())   # expected: ripple-down semantics"
+            "with rule_mode(q):" + ("   # blocks written alternative-first where a node has both" if order.startswith("ar") else "") + "\n"
+            + show(node, inst, 1, f", y.p >= {inst.v(1)}" if base == "join" else "", order) + "rows1 = list(q.evaluate()); rows2 = list(q.evaluate())   # expected: ripple-down semantics"
             + ("; Made(..., c=y) for every y" if base == "join" else ""))
